@@ -143,7 +143,7 @@ def r2_reward_bound(ctx):
             SPEED = [A(x) for _, x in q.call_exprs(b, "compute_doscmint_speed")]
             TIP = "try(applytx::proof_is_tip910("
             r.check(q.is_call(cr[2][0], "compute_doscmint_speed"), "reward/speed", "speed = compute_doscmint_speed(..)", "speed argument = %s" % got[0][:100], b.where(bi))
-            want_prev = "try(Option::ok_or(SmtMapping::get($1.history, BlockHeight::BlockHeight{0: SubWithOverflow($1.height.0, 1).0}), StateError::InvalidMelPoW{})).dosc_speed"
+            want_prev = "try(Option::ok_or(SmtMapping::get($1.history, SubWithOverflow($1.height.0, 1).0), StateError::InvalidMelPoW{})).dosc_speed"
             r.check(got[1] == want_prev, "reward/prev-speed", "previous speed = history[height−1].dosc_speed", "previous speed = %s" % got[1], b.where(bi))
             r.check(got[2] == "DATA.0", "reward/difficulty", "difficulty = decoded", "difficulty = %s" % got[2], b.where(bi))
             r.check(got[3].startswith(TIP), "reward/tip910", "flag = proof_is_tip910(..)?", "flag = %s" % got[3][:80], b.where(bi))
